@@ -15,6 +15,8 @@ func run(c *fw.Ctx) {
 	fsx.Explore(c, m)
 	fsx.Containment(c, m)
 	fsx.Histories(c, m, c.Pick(96, 4000), c.Pick(80, 200))
+	fsx.StagingNames(c, m)
+	fsx.WideCollections(c, m)
 }
 
 type witness struct {
@@ -30,9 +32,11 @@ func init() {
 			fsx.ReplayWitness(c, fsx.Monitors{Model: true}, w)
 		},
 		Rule: "exhaustive: all 361 trees over names {a,b}, depth<=2, contents {c1,c2} plus 24 trees reaching depth 3-4 along /a/b/a x every single request over 8 paths (every method; COPY/MOVE over source x destination x Depth x Overwrite x Destination form; quick uses a reduced Depth x Overwrite product, thorough the full one), each on a freshly materialised directory with a snapshot before and after; plus entity-tag/media-type probes (GET/HEAD/PROPFIND/PUT four-way) on every stored file and after every successful PUT; plus seeded random lock-step histories over hostile names, depth<=4, contents up to 256 KiB. " +
+			"Stored modification times are a dimension of every pre-state (the epoch, one second and half a second either side of it, 2^31-1, 2^31, -2^31, 1980, 2100, sub-second fractions, now), and GET/HEAD Last-Modified and PROPFIND getlastmodified are compared with what is stored; PROPFIND is also sent with the XML forms of allprop/propname and with <prop> requests over live, unknown, foreign-namespace and near-miss-namespace names (every name asked for is answered, nothing else is, nothing outside DAV: is reported as stored); collections are also addressed with a trailing slash (OPTIONS/GET/HEAD/PROPFIND/COPY/MOVE sources); Depth/Overwrite values outside the grammar in several spellings; a slice whose collections hold members named like the server's own staging entries (process number and counter learnt by looking into the collection during an upload); a slice with a collection of 1500 files and 50 collections. " +
 			"distinct_nontrivial counts distinct (method, abstract tree/request class, model expectation) keys whose request changes the model tree or is refused for a tree-dependent reason.",
 		Assumptions: []string{
-			"mutations involving the root '/', PROPPATCH/LOCK, trailing slash on a file path, Destination on a foreign host and Range requests are outside the model's universe (statement silent)",
+			"mutations involving the root '/', PROPPATCH/LOCK, trailing slash on a file path, PUT to a name spelt with a trailing slash, Destination on a foreign host, Range requests and requests carrying header fields the model has no rule for (Content-MD5, If-Unmodified-Since, the If header...) are outside the model's universe (statement silent)",
+			"PROPFIND <prop>: DAV: names other than resourcetype/getcontentlength/getlastmodified/getetag may be answered under any status; for collections only resourcetype is required under 200; a name asked for twice may be answered once or twice",
 			"when several refusal reasons apply any of their codes is accepted; COPY into the source's own descendant may be refused (4xx) or carried out with the pre-request source; destination an ancestor of the source: any 4xx",
 			"the directory is private to the worker (no concurrent modification); tmpfs and disk-backed file systems behave alike for these calls",
 		},
